@@ -23,6 +23,8 @@ def run_program(sc: Dict[str, Any], location: str, watchdog_s: float = 60.0) -> 
     steps: wait_dead | restart | kill {"after": virtual s} | sleep {"t": virtual s}"""
     from . import hookbridge
     harness.install_hooks()
+    harness.CTX.current_root = location
+    BACKEND.current_root = location
     REC.reset()
     hookbridge.reset()
     _uid["n"] += 1
@@ -39,6 +41,7 @@ def run_program(sc: Dict[str, Any], location: str, watchdog_s: float = 60.0) -> 
     script = {"default": {"reason": "Success", "duration": 1.0}, "components": {ref: sc["seq"]},
               "hooks": {name: sc.get("hook_answers") or ["Possible"]}}
     BACKEND.reset(script)
+    BACKEND.current_root = location
     BACKEND.launch_sampler = None
     res: Dict[str, Any] = {"build_error": None, "ref": ref}
     try:
